@@ -394,3 +394,25 @@ func (f *fn) structAssign(s *ast.AssignStmt, rest func() string) (string, bool) 
 	}
 	return pre + f.newFlat(s, obj, vals, rest), true
 }
+
+// repoCallee resolves a call to a function of the repository that has a body (receiver first among the arguments).
+func (f *fn) repoCallee(call *ast.CallExpr) (*types.Func, []ast.Expr) {
+	var c *types.Func
+	args := call.Args
+	switch fun := call.Fun.(type) {
+	case *ast.Ident:
+		c, _ = f.pi.info.Uses[fun].(*types.Func)
+	case *ast.SelectorExpr:
+		c, _ = f.pi.info.Uses[fun.Sel].(*types.Func)
+		if sel := f.pi.info.Selections[fun]; sel != nil && sel.Kind() == types.MethodVal {
+			args = append([]ast.Expr{fun.X}, call.Args...)
+		}
+	}
+	if c == nil {
+		return nil, nil
+	}
+	if pi, d := f.u.L.decl(c); pi == nil || d == nil || d.Body == nil {
+		return nil, nil
+	}
+	return c, args
+}
